@@ -19,8 +19,8 @@ from typing import Any
 
 VERIF = Path(__file__).resolve().parent.parent
 REPO = Path(os.environ.get("VERIF_REPO", "/repo"))
-EVIDENCE_DIR = VERIF / "evidence"
-REPLAY_DIR = VERIF / "replays"
+EVIDENCE_DIR = Path(os.environ.get("VERIF_EVIDENCE_DIR", VERIF / "evidence"))     # overridden only by tools/seed_matrix.sh
+REPLAY_DIR = Path(os.environ.get("VERIF_REPLAY_DIR", VERIF / "replays"))
 FINDINGS_FILE = VERIF / "known_findings.json"
 
 EXIT_OK, EXIT_VIOLATION, EXIT_HARNESS = 0, 1, 3
